@@ -617,6 +617,21 @@ def jobs_C18(tier, seed):
 def jobs_for(prop, tier, seed):
     jobs = globals()[f'jobs_{prop}'](tier, seed)
     if tier == 'thorough':
+        # context-bounding proper: switches forced by blocking are free and ALL explored, only
+        # preemptions are bounded (single-transfer scenarios; the other jobs charge forced switches).
+        # Fault jobs: one preemption; cancel jobs: every non-preemptive schedule x every cancel point.
+        ff = []
+        for j in jobs:
+            sc = j.get('scn')
+            if sc is None or sc.get('mode') == 'inline' or len(sc.get('transfers', ())) != 1 or j.get('forced_cost', 1) == 0:
+                continue
+            b = j['bound'] if isinstance(j['bound'], dict) else {'sched': j['bound']}
+            if b.get('sched', 0) < 1 or b.get('env', 0) > 1:
+                continue
+            ff.append(dict(j, name=j['name'] + ' [forced switches free]', forced_cost=0,
+                           bound=dict(b, sched=0 if b.get('inject') else 1), max_execs=200000))
+        jobs = jobs + ff[:12]
+    if tier == 'thorough':
         # fine granularity (every point is a preemption point, incl. body/stream reads) with the
         # coordinator's unlocked fields as scheduling points (reads and writes): one preemption
         extra = []
